@@ -96,6 +96,12 @@ def check_case(case) -> Result:
         nm = pulser.NoiseModel(dephasing_rate=0.2)
     names = ["occupation", "energy"][: len(case["evals"])]
     obs = e2e.observables(names, None, None, per_obs_evals=case["evals"])
+    if len(case["evals"]) == 2 and case["seed"] % 3 == 0:
+        import pulser.backend as pb
+
+        # two observables of the SAME kind told apart by tag_suffix, each with its own times
+        obs = [pb.Occupation(evaluation_times=case["evals"][0], tag_suffix="a"), pb.Occupation(evaluation_times=case["evals"][1], tag_suffix="b")]
+        r.label("same_kind_twice_with_suffix")
     if case["default_evals"] is not None:
         import pulser.backend as pb
 
